@@ -423,7 +423,7 @@ class SymDomain(BaseDomain):
             max=d.np_max, min=d.np_min, maximum=_UFunc(d, "max"), minimum=_UFunc(d, "min"), amax=d.np_max, amin=d.np_min,
             nanmax=d.np_max, nanmin=d.np_min,
             argmax=d.np_argmax, argmin=d.np_argmin, argsort=d.np_argsort,
-            allclose=lambda a, b, **k: UNKNOWN(("allclose", a, b)), isclose=lambda *a, **k: UNKNOWN("isclose"),
+            allclose=d.np_allclose, isclose=d.np_isclose,
             any=d.np_any, all=d.np_all, isscalar=d.np_isscalar,
             isfinite=lambda v: UNKNOWN("isfinite"), isnan=lambda v: UNKNOWN("isnan"),
             where=d.np_where, clip=d.np_clip,
@@ -507,6 +507,18 @@ class SymDomain(BaseDomain):
             else:
                 flat[i] = Poly.atom(("uninit", t, i))
         return with_dt(a, dt_of(dtype))
+
+    def np_isclose(self, a, b, rtol=1e-05, atol=1e-08, **k):
+        """tolerance comparison |a-b| <= atol + rtol|b|: an UNKNOWN of its own kind (rules treat it as a tolerance test, never as an
+        exact one); with both tolerances literally zero it IS the exact comparison"""
+        if rtol == 0 and atol == 0:
+            return self.compare(self._interp, operator.eq, a, b, None)
+        return UNKNOWN("isclose")
+
+    def np_allclose(self, a, b, rtol=1e-05, atol=1e-08, **k):
+        if rtol == 0 and atol == 0:
+            return self.np_all(self.compare(self._interp, operator.eq, a, b, None))
+        return UNKNOWN(("allclose", a, b))
 
     def np_result_type(self, *xs):
         """np.result_type / np.promote_types: the promoted dtype is at least as wide as every operand (src tag kept only
